@@ -109,6 +109,7 @@ const (
 	simnodeDrop       = simnode.Drop
 	simnodeDelay      = simnode.Delay
 	cmdObserveSeqNo   = memd.CmdObserveSeqNo
+	cmdGet            = memd.CmdGet
 	cmdGetFailoverLog = memd.CmdDcpGetFailoverLog
 	statusTmpFail     = memd.StatusTmpFail
 )
